@@ -208,8 +208,10 @@ def job_split(job, tier, repo, workdir):
         try:
             defs, _ = ir2smt.ir_to_smt(ll_text, ["w_discard_before", "w_discard_after"], mode)
         except ir2smt.Unsupported as ex:
-            res["inconclusive"].append("IR not translatable (%s): %s" % (mode, ex))
-            return res
+            if mode == "bv":
+                res["inconclusive"].append("IR not translatable (%s): %s" % (mode, ex))
+                return res
+            continue
         b = B(mode)
         script = defs + "\n"
         for (t, c, r, w) in vectors:
@@ -239,7 +241,11 @@ def job_split(job, tier, repo, workdir):
     names = None
     tasks = []
     for mode in ("bv", "int"):
-        defs, _ = ir2smt.ir_to_smt(ll_text, ["w_discard_before", "w_discard_after"], mode)
+        try:
+            defs, _ = ir2smt.ir_to_smt(ll_text, ["w_discard_before", "w_discard_after"], mode)
+        except ir2smt.Unsupported as ex:
+            res["samples"].append({"encoding": mode, "skipped": "IR not translatable in this encoding: %s" % ex})
+            continue
         b = B(mode)
         decls, pre, obs = split_obligations(b)
         if job.get("world_is_int", False):
@@ -261,6 +267,7 @@ def job_split(job, tier, repo, workdir):
 
     with cf.ThreadPoolExecutor(max_workers=int(job.get("parallel", 5))) as ex:
         done = list(ex.map(work, tasks))
+    built = set()
     for mode, name, verdict, answers, dt in done:
         key = "C16|split.%s" % name
         st = res["checks"].setdefault(key, dict(reached=0, discharged=0, violated=0, unknown=0))
@@ -279,9 +286,11 @@ def job_split(job, tier, repo, workdir):
                 if m:
                     vals[var] = int(m.group(1), 16) if m.group(1) else int(m.group(2) or m.group(3))
             rexe = os.path.join(workdir, "replay_split")
-            if not os.path.exists(rexe):
+            if rexe not in built:
+                # always rebuilt against the current tree
                 open(rexe + ".cpp", "w").write(REPLAY_SPLIT)
                 sh(["g++", "-std=c++11", "-O1", "-I" + os.path.join(repo, "include"), rexe + ".cpp", "-o", rexe])
+                built.add(rexe)
             rc, rout = sh([rexe, str(vals.get("t", 0)), str(vals.get("r", 0)), str(vals.get("w", 1))])
             res["replays"] += 1
             confirmed = name in rout
